@@ -97,8 +97,13 @@ def ais_for(n):
 # before t=; pdb with MODEL blocks, arbitrary serials / residue numbers, HETATM, TER; mdcrd with an empty / numeric title
 # dcd "fixed": a CHARMM/NAMD DCD with fixed atoms (NAMNF > 0: frame 0 stores every atom, later frames only the free half),
 # with / without the unit-cell block; mdtraj never writes one
-STYLES = {"dcd": ["mdtraj", "fixed"], "lammpstrj": ["mdtraj", "shuffled", "columns"], "xyz": ["mdtraj", "hand"], "gro": ["mdtraj", "hand"],
-          "pdb": ["mdtraj", "hand"], "mdcrd": ["mdtraj", "title_empty", "title_numeric"]}
+# "zerocell" / "zerotail": written by mdtraj from a trajectory whose unit cell has ZERO lengths in a stretch of frames at the head /
+# tail of the file (per-frame cell content varies inside one file), for every format that stores a cell per frame
+ZSTYLES = ["zerocell", "zerotail"]
+STYLES = {"dcd": ["mdtraj", "fixed"] + ZSTYLES, "lammpstrj": ["mdtraj", "shuffled", "columns"] + ZSTYLES, "xyz": ["mdtraj", "hand"],
+          "gro": ["mdtraj", "hand"] + ZSTYLES, "pdb": ["mdtraj", "hand"], "mdcrd": ["mdtraj", "title_empty", "title_numeric"] + ZSTYLES}
+for _f in ("nc", "ncdf", "netcdf", "h5", "hdf5", "xtc", "trr", "dtr", "stk", "crd"):
+    STYLES[_f] = ["mdtraj"] + ZSTYLES
 
 
 def config(fmt, i):
@@ -127,6 +132,10 @@ def mk(fmt, kind, Ts, chunk=0, stride=1, skip=0, frame=None, ai=0, n_atoms=None,
     if style is None:
         sts = STYLES.get(fmt, ["mdtraj"])
         style = sts[(i // 2) % len(sts)]
+    if kind == "load_list" and style in ZSTYLES:
+        # a short file of this style is all zero boxes = "no unit cell" for some readers: joining it with a file that has one is
+        # refused by Trajectory.join on both sides of the property; the zero-box axis is about ONE file
+        style = "mdtraj"
     bases = None
     if overlaps is not None:
         # file j+1 starts with the last frame of file j (overlap) or two identifiers further on (no overlap)
@@ -135,7 +144,7 @@ def mk(fmt, kind, Ts, chunk=0, stride=1, skip=0, frame=None, ai=0, n_atoms=None,
             bases.append(bases[-1] + Ts[j] - 1 if overlaps[j] else bases[-1] + Ts[j] + 1)
         if style == "fixed":
             style = "mdtraj"
-    if fmt in NEEDS_CELL or (fmt in ("mdcrd", "crd") and n == 1):
+    if fmt in NEEDS_CELL or (fmt in ("mdcrd", "crd") and n == 1) or style in ZSTYLES:
         cell = True
     if isinstance(ai, int):
         choices = ais_for(n)
@@ -209,6 +218,14 @@ def witnesses():
              mk(fmt, "iterload", [7], 100, 2, 1, ai=4)]
         out += w[:3] if fmt in ALIASES else w
         for sty in STYLES.get(fmt, [])[1:]:
+            if sty in ZSTYLES:
+                # partial loads that fall entirely into / straddle the zero-box stretch of the file
+                w = [mk(fmt, "load_frame", [6], frame=1 if sty == "zerocell" else 4, style=sty),
+                     mk(fmt, "iterload", [7], 3, 1, 0, ai=[0, 2, 12], n_atoms=13, style=sty),
+                     mk(fmt, "iterload", [6], 1, 2, 1, ai=None, n_atoms=4, style=sty),
+                     mk(fmt, "load", [5], stride=2, ai=None, n_atoms=10, style=sty)]
+                out += w[:2] if fmt in ALIASES else w
+                continue
             out += [mk(fmt, "load", [6], stride=1, ai=[1, 4, 5, 10], n_atoms=13, style=sty),
                     mk(fmt, "iterload", [7], 3, 1, 0, ai=[0, 2, 12], n_atoms=13, style=sty),
                     mk(fmt, "load", [5], stride=2, ai=None, n_atoms=10, style=sty, cell=False),
@@ -572,7 +589,10 @@ def run_cases(ctx, cases, replaying=False):
                     ctx.fail("%s %s: %s of a partially loaded frame differs from the full load" % (fmt, c["kind"], name), c,
                              observed=t[key], expected="[frame id, got, full-load value]",
                              tags={"fmt": fmt, "api": c["kind"], "kind": name + "_wrong",
-                                   "with_frame": c["frame"] is not None})
+                                   "with_frame": c["frame"] is not None,
+                                   # the partial load has NO unit cell where the full load has a stored zero-size box
+                                   "zero_box_dropped": bool(name == "cell" and c.get("style") in ZSTYLES
+                                                            and all(g is None and w == -2 for _i, g, w in t[key]))})
             if t.get("top_matches_xyz") is False:
                 ctx.fail("%s %s: topology atoms differ from the atoms of xyz" % (fmt, c["kind"]), c,
                          observed=t.get("top_atoms"), expected="same atoms as xyz",
